@@ -73,3 +73,20 @@ Definition ex_flow (st nonce code atok jwt sub : pystr) : flow :=
                                              (PS "at_hash", VStr (ex_lhash (PS "256") atok))]) None).
 Definition ex_flow_a : flow := ex_flow (PS "S1") (PS "N1") (PS "C1") (PS "A1") (PS "JWT#A") (PS "diana").
 Definition ex_flow_b : flow := ex_flow (PS "S2") (PS "N2") (PS "C2") (PS "A2") (PS "JWT#B") (PS "bob").
+
+(* a history on one client (C08, the nonce clause over histories): sessions S1/N1 and S2/N2; both get their code
+   - the response for S2 carries a member called nonce naming N1; S1 is completed; the token response for S2 whose
+   ID Token has sub = N1 is refused, the one with sub = erin is accepted (erin -> S2 joins the key map) *)
+Definition ex_hist_cfgs : list (pystr * rp_cfg) := [(ex_iss, ex_cfg (Some (PS "RS256")) (Some (PS "RS256")) false)].
+Definition ex_code_resp (st : pystr) (extra : record) : response :=
+  mkResp ([(PS "state", VStr st); (PS "code", VStr (PS "C1"))] ++ extra)%list None.
+Definition ex_hist_pre : list op :=
+  [OBegin ex_iss (PS "S1") (PS "N1") (ex_req (PS "S1") (PS "N1"));
+   OBegin ex_iss (PS "S2") (PS "N2") (ex_req (PS "S2") (PS "N2"));
+   OAuthz ex_iss (ex_code_resp (PS "S1") []) ex_now;
+   OAuthz ex_iss (ex_code_resp (PS "S2") [(PS "nonce", VStr (PS "N1"))]) ex_now;
+   OToken ex_iss (PS "S1") (ex_token_resp (Some (ex_tok_te (PS "N1") (PS "diana")))) ex_now;
+   OToken ex_iss (PS "S2") (ex_token_resp (Some (ex_tok_te (PS "N2") (PS "N1")))) ex_now;
+   OToken ex_iss (PS "S2") (ex_token_resp (Some (ex_tok_te (PS "N2") (PS "erin")))) ex_now].
+Definition ex_hist_world : list (pystr * client) := run ex_lhash (init_world ex_hist_cfgs) ex_hist_pre.
+
